@@ -72,12 +72,18 @@ PORTS = {
     "sel::i": {"parameter": None, "default": "0"},
     "gain::i": {"parameter": None, "default depends": "sel", "default -1": "100", "default 0": "10", "default 12": "120", "default -2147483648": "1", "default": "50"},
     "plain::i": {"parameter": None, "default": "7"},
+    # short names: the selector's printed value lands close behind the path in the shared buffer
+    "md::i": {"parameter": None, "default": "0"},
+    "lo::i": {"parameter": None, "default depends": "md", "default 1": "100", "default 12": "120", "default": "50"},
+    "p::i": {"parameter": None, "default": "0"},
+    "a::i": {"parameter": None, "default depends": "p", "default 1": "101", "default -12": "112", "default": "51"},
     "nodefault::i": {"parameter": None},
 }
 # (port, run-time value of the selector or None for "no run-time object", expected result)
 CASES = [
     ("gain::i", "0", "10"), ("gain::i", "-1", "100"), ("gain::i", "12", "120"), ("gain::i", "7", "50"), ("gain::i", "-2147483648", "1"), ("gain::i", "2147483647", "50"),
     ("gain::i", None, "10"),               # without a run-time object the selector's own default (0) selects
+    ("lo::i", "1", "100"), ("lo::i", "12", "120"), ("lo::i", "3", "50"), ("a::i", "1", "101"), ("a::i", "-12", "112"), ("a::i", "0", "51"),
     ("plain::i", "0", "7"), ("plain::i", None, "7"), ("nodefault::i", "0", None),
 ]
 
@@ -195,6 +201,28 @@ def evaluate(unit, port, runtime_value):
             for i, c in enumerate(data):
                 mem.write(v[0] + i, c)
             return v[0]
+        if nm in ("strchr", "strrchr", "strchrnul"):
+            a = v[0] if isinstance(v[0], int) else mem.literal(v[0])
+            t_ = mem.cstr(a, n)
+            c_ = v[1] & 0xff
+            i_ = (t_.rfind(chr(c_)) if nm == "strrchr" else t_.find(chr(c_))) if c_ else len(t_)
+            if i_ < 0:
+                return a + len(t_) if nm == "strchrnul" else 0
+            return a + i_
+        if nm in ("strcspn", "strspn"):
+            a = v[0] if isinstance(v[0], int) else mem.literal(v[0])
+            t_, set_ = mem.cstr(a, n), text(v[1], n)
+            i_ = 0
+            while i_ < len(t_) and ((t_[i_] in set_) == (nm == "strspn")):
+                i_ += 1
+            return i_
+        if nm == "strncmp":
+            a, b = text(v[0], n)[:v[2]], text(v[1], n)[:v[2]]
+            return 0 if a == b else (1 if a > b else -1)
+        if nm == "strstr":
+            a = v[0] if isinstance(v[0], int) else mem.literal(v[0])
+            i_ = mem.cstr(a, n).find(text(v[1], n))
+            return a + i_ if i_ >= 0 else 0
         if nm == "strcmp":
             a, b = text(v[0], n), text(v[1], n)
             return 0 if a == b else (1 if a > b else -1)
@@ -290,7 +318,7 @@ def evaluate(unit, port, runtime_value):
                 path = [x for x in ptrs if mem.cstr(x, n) and port_by_name(mem.cstr(x, n))]
                 if len(path) != 1:
                     raise FD.Unknown("run-time query: the path buffer was not recognised", n)
-                if port_by_name(mem.cstr(path[0], n)) != "sel::i":
+                if port_by_name(mem.cstr(path[0], n)) not in ("sel::i", "md::i", "p::i"):
                     raise FD.Unknown("run-time query of %r" % mem.cstr(path[0], n), n)
                 out = path[0] + len(mem.cstr(path[0], n))
                 # the library zeroes 8 bytes behind the path, builds the query there and prints the reply over it
